@@ -31,7 +31,10 @@ Step(s, e) ==
     [] e.ev = "instantiation" -> {[s EXCEPT !.inst = @ + 1]}
     [] e.ev = "throw" -> IF e.kind = "start" THEN {[s EXCEPT !.tstart = @ + 1]} ELSE {s}
     [] e.ev = "pcease" -> IF s.ceased < Running(s) THEN {[s EXCEPT !.ceased = @ + 1]} ELSE {}
-    [] e.ev = "preq" -> {[s EXCEPT !.open = @ + 1]}
+    \* a task request after a wait has reported completion: that report came too early (a request is
+    \* answered by the observer that logs it, so every request of a set that HAS completed was
+    \* logged before the answer that let it complete)
+    [] e.ev = "preq" -> IF s.truewait THEN {} ELSE {[s EXCEPT !.open = @ + 1]}
     [] e.ev = "pans" -> {[s EXCEPT !.open = @ - 1]}
     [] e.ev = "setwait" ->
          \* never true while a task request is unanswered (records of the engine may be
